@@ -107,6 +107,28 @@ def classify(g, gen_file, res, unit_prop):
                     generic = m.group(1)
             if tag:
                 break
+        if tag is None and kind == "dec" and prim is not None:
+            L0 = prim["line_start"]
+            if "end of loop" in msg or "loop" in msg.lower():
+                for L in range(L0, min(L0 + 40, len(gl) + 1)):
+                    m = re.search(r"decreases\b.*//\s*OBL:\s*([A-Za-z0-9_.\-]+)", gl[L - 1])
+                    if m:
+                        tag = m.group(1)
+                        break
+                    if L > L0 and re.match(r"\s*(loop|while|for)\b", gl[L - 1]):
+                        break
+            else:
+                # recursion: the enclosing function's decreases clause
+                for L in range(L0, 0, -1):
+                    if re.match(r"\s*(pub\s+)?(proof\s+|exec\s+)?fn\s", gl[L - 1]):
+                        for L2 in range(L, min(L + 60, len(gl) + 1)):
+                            m = re.search(r"decreases\b.*//\s*OBL:\s*([A-Za-z0-9_.\-]+)", gl[L2 - 1])
+                            if m:
+                                tag = m.group(1)
+                                break
+                            if gl[L2 - 1].strip() == "{":
+                                break
+                        break
         # the call-site / statement line in the real source
         site = None
         cand = [s for s in spans if not (s.get("label") or "").startswith("failed")] or spans
